@@ -540,19 +540,28 @@ class Engine:
             self.oblige(st, what, z3.And(w >= 0, w < L), node)
         return w
 
-    def clamp_slice(self, L, lo, hi):
+    def clamp_slice(self, L, lo, hi, st=None):
+        """numba slice semantics (negative wraps once, then clamp to [0, L]); when the path condition already decides that a
+        bound is inside [0, L] the clamp is dropped so that later formulas mention the plain offset"""
         def norm(x, default):
             if x is None:
                 return default
             x = I(x)
             c = conc_int(simp(x))
             if c is not None and c >= 0:
+                if st is not None and not self.specmode and not self.feasible(st, z3.IntVal(c) > L):
+                    return z3.IntVal(c)
                 return z3.If(z3.IntVal(c) > L, L, z3.IntVal(c))
+            if st is not None and not self.specmode and not self.feasible(st, z3.Or(x < 0, x > L)):
+                return x
             x = z3.If(x < 0, x + L, x)
             return z3.If(x < 0, z3.IntVal(0), z3.If(x > L, L, x))
         lo2 = norm(lo, z3.IntVal(0))
         hi2 = norm(hi, L)
-        ln = z3.If(hi2 - lo2 > 0, hi2 - lo2, z3.IntVal(0))
+        if st is not None and not self.specmode and not self.feasible(st, hi2 < lo2):
+            ln = hi2 - lo2
+        else:
+            ln = z3.If(hi2 - lo2 > 0, hi2 - lo2, z3.IntVal(0))
         return simp(lo2), simp(ln)
 
     # ---------------- expression evaluation
@@ -1055,7 +1064,7 @@ class Engine:
                         raise Unsupported('strided slice')
                     lo = None if e.lower is None else self.ev(e.lower, st)
                     hi = None if e.upper is None else self.ev(e.upper, st)
-                    off, ln = self.clamp_slice(a[2], lo, hi)
+                    off, ln = self.clamp_slice(a[2], lo, hi, st)
                     newaxes.append(('r', simp(a[1] + off), ln))
                     partial = True
                 else:
